@@ -81,6 +81,9 @@ def quick_deviations():
     out.append(mk("lsn", True, wall="W2", tags=["wall"]))
     out.append(mk("cdn", False, wall="W2", tags=["wall"]))
     out.append(mk("usn", False, wall="W6m", tags=["wall"]))
+    # re-entrant wall: the outermost SOL surfaces of the outer lower leg meet the baffle first
+    out.append(mk("lsn", False, wall="W7", opt=dict(nx_sol=3, psinorm_sol=1.3), tags=["wall"]))
+    out.append(mk("usn", False, wall="W7m", opt=dict(nx_sol=3, psinorm_sol=1.3), tags=["wall"]))
     # slanted targets without boundary guard cells (contours must be extended to reach the wall)
     out.append(mk("lsn", False, wall="W6", opt=dict(y_boundary_guards=0), tags=["wall", "guards"]))
     out.append(mk("cdn", False, wall="W2", opt=dict(y_boundary_guards=0), tags=["wall", "guards"]))
